@@ -7,6 +7,9 @@ cd "$(dirname "$0")/.."
 ids=("$@"); [ ${#ids[@]} -eq 0 ] && ids=($(ls seeded))
 rc=0
 for id in "${ids[@]}"; do
+  # every seeded tree is a fresh set of build-cache entries: keep the disk from filling up
+  avail=$(df --output=avail -k / | tail -1)
+  if [ "$avail" -lt 30000000 ]; then GOFLAGS=-mod=mod go clean -cache >/dev/null 2>&1; fi
   checks=$(python3 -c "import json;print(' '.join(json.load(open('seeded/$id/meta.json'))['caught_by']))")
   out=$(scripts/tryseed.sh "$PWD/seeded/$id/patch.diff" $checks 2>&1 | grep -E '^(C[0-9]+: |tryseed)')
   while read -r line; do
